@@ -12,11 +12,17 @@ import os, subprocess, hashlib, shutil
 import vlib, zckfmt, httpd_ranges
 
 THEOREMS = ["C04_update_reconstructs_B", "C04_requests_exactly_the_missing_chunks", "C04_needed_characterised",
-            "C04_needed_no_duplicates", "C04_header_fetch", "C04_header_fetch_before_fix"]
+            "C04_needed_no_duplicates", "C04_header_fetch", "C04_header_fetch_before_fix",
+            # machine-checked link between the byte-level component models and the chunk-level model
+            "C04_link_scan", "C04_link_validate_data", "C04_link_missing_range", "C04_link_missing_range_abs",
+            "C04_link_placed_is_place", "C04_link_place_single", "C04_link_place_multipart_partial"]
 ASSUMPTIONS = [
-    "chunk-level model (Dl/Update.v): each library call is represented by its per-chunk effect; that the byte-level code has "
-    "this effect is the subject of C13 (header parser), C09 (validity scan), C08 (copy), C10 (range computation and string) and "
-    "C05 (single-range / multipart callbacks), and is tied here end to end by the real zckdl runs",
+    "chunk-level model (Dl/Update.v): each library call is represented by its per-chunk effect. Proved links to the byte-level "
+    "component models (Dl/UpdateLink*.v, theorems C04_link_*): validity scan and final data validation (Read/Scan.v, C09), range "
+    "computation (Dl/Range.v, C10), placement of a single-range response (Dl/DlWrite.v, C05; fread reading of extents); multipart "
+    "placement only up to the two confinement facts proved for dl_write_range alone. NOT linked by a theorem, tied by the real zckdl "
+    "runs only: the copy from the old file (C08), header fetch + parse (C13), and the composition of the linked steps into one "
+    "byte-level run",
     "the checksum functions are arbitrary functions; every conclusion that needs injectivity is stated as 'or two different "
     "byte strings with the same chunk checksum exist'",
     "B is a valid file (wf_new), the server returns the requested extents of B and answers 200 iff the request has more ranges "
